@@ -256,6 +256,56 @@ def probes(chk, runner):
             chk.violation('regressed:' + e['id'], 'fixed finding %s regressed: observed %s' % (e['id'], json.dumps(got)[:500]), {'srcs': e['probe']})
 
 
+def run_cli(chk, runner, cases, tier):
+    """the real command line front end: a run that ended with an uncaught runtime error must be reported to the caller (exit status, stack trace), a clean one must not"""
+    import os
+    import shutil
+    import subprocess
+    from concurrent.futures import ThreadPoolExecutor
+    core.build('asan', 'vcli')
+    exe = os.path.join(core.BUILD_ROOT, 'asan', 'vcli')
+    env = dict(os.environ, ASAN_OPTIONS=core.ASAN_OPTIONS, UBSAN_OPTIONS=core.UBSAN_OPTIONS)
+    base = os.path.join(core.BUILD_ROOT, 'tmp', 'c04_cli_%d' % os.getpid())
+    shutil.rmtree(base, ignore_errors=True)
+    os.makedirs(base)
+    sub = cases[:60 if tier == 'quick' else 800]
+    ref = runner.run([{'steps': [{'op': 'vm', 'vm': 0, 'max_runtime_ms': 3000}, {'op': 'run', 'vm': 0, 'src': c['src'], 'path': '/vh/prog.sqf'}]} for c in sub])
+
+    def one(i):
+        f = os.path.join(base, 'p%d.sqf' % i)
+        with open(f, 'w') as fh:
+            fh.write(sub[i]['src'])
+        try:
+            return subprocess.run([exe, '-a', '--suppress-welcome', '--no-load-executable-dir', '--no-work-print', '--no-execute-print', '--input-sqf', f, '-m', '3000'],
+                                  cwd=base, env=env, stdout=subprocess.PIPE, stderr=subprocess.PIPE, timeout=120)
+        except subprocess.TimeoutExpired:
+            return None
+    with ThreadPoolExecutor(core.NWORKERS) as ex:
+        outs = list(ex.map(one, range(len(sub))))
+    for c, r, p in zip(sub, ref, outs):
+        if isinstance(r, core.Death) or p is None:
+            chk.inconclusive += 1
+            continue
+        chk.evaluations += 1
+        res = r['res'][1].get('r')
+        out = p.stdout.decode('latin-1')
+        rep = {'src': c['src'], 'front_end': 'vcli', 'execute_result': res, 'exit_status': p.returncode, 'stdout_tail': out[-1500:]}
+        if p.returncode < 0:
+            chk.violation('cli-died', 'the CLI died (signal %d) on %s at %s' % (-p.returncode, c['kind'], c['position']), dict(rep, stderr_tail=p.stderr.decode('latin-1')[-2000:]))
+            continue
+        if res == 'runtime_error':
+            chk.count('cli_failed_runs')
+            if p.returncode == 0:
+                chk.violation('cli-exit-0-after-error', 'a run that ended with an uncaught runtime error (%s at %s) makes the CLI exit with status 0' % (c['kind'], c['position']), rep)
+            elif 'Stacktrace' not in out:
+                chk.violation('cli-no-stacktrace', 'the CLI reported the failed run (%s at %s) without a stack trace' % (c['kind'], c['position']), rep)
+        elif res in ('empty', 'ok'):
+            chk.count('cli_clean_runs')
+            if p.returncode != 0:
+                chk.violation('cli-exit-nonzero-clean', 'a run without an uncaught error (%s at %s, result %s) makes the CLI exit with status %d' % (c['kind'], c['position'], res, p.returncode), rep)
+    shutil.rmtree(base, ignore_errors=True)
+
+
 def main(tier):
     chk = core.Check(PROP, 'exploration', tier)
     runner = core.Runner('asan')
@@ -267,6 +317,7 @@ def main(tier):
     probes(chk, runner)
     run_singles(chk, runner, cases)
     run_histories(chk, runner, 400 if tier == 'quick' else 10000, tier, avoid)
+    run_cli(chk, runner, cases, tier)
     pairs = chk.counters.pop('pairs', set())
     chk.counters['fault_kind_x_position_pairs'] = len(pairs)
     return chk.finish(
